@@ -14,7 +14,7 @@ from sim.loop import VirtualLoop
 PROP = 'C19'
 HASH_SENSITIVE = False
 CONTAINERS = ['list', 'tuple', 'dict', 'Dict', 'dictattr', 'OrderedDict', 'UserDict', 'UserList', 'named', 'dictable']
-LEAF_KINDS = ['sleep', 'task', 'future', 'done', 'twostage', 'shared', 'nested', 'imm', 'custom', 'dep', 'gen']
+LEAF_KINDS = ['sleep', 'task', 'future', 'done', 'twostage', 'shared', 'nested', 'imm', 'custom', 'dep', 'gen', 'done_old', 'reawait']
 DELAYS = [0, 0, 1, 1, 2, 5, 3600]
 PLAIN = [None, 0, 1, 'x', 2.5, True, {'special': 'future_class'}, {'special': 'handle_class'}, {'special': 'nparray'}, {'special': 'nparray0'},
          {'special': 'series'}, {'special': 'frame'}, {'special': 'range'}, {'special': 'deque'}, {'special': 'bytes'}]
@@ -250,6 +250,16 @@ class _Lazy:
 
     def __await__(self):
         return self.coro.__await__()
+
+
+class _Quote:
+    """a long-lived object that can be awaited again and again; each wait fetches afresh"""
+
+    def __init__(self, fetch):
+        self.fetch = fetch
+
+    def __await__(self):
+        return self.fetch().__await__()
 
 
 class _Custom:
@@ -547,6 +557,29 @@ def execute(trace, ctx=None):
         elif k == 'done':
             o = loop.create_future()
             fut_finish(o, i)
+        elif k == 'done_old':
+            # a future that completed in an EARLIER event loop, since closed (yesterday's batch): its result is there for the taking
+            old_ = VirtualLoop(Tape([]), step_cap=10, jitter=False)
+            o = old_.create_future()
+            o.set_result(result_of(i))
+            finished.append(i)
+            ev(i).set()
+            try:
+                old_.close()
+            except Exception:
+                pass
+            res.probe('future-completed-in-an-earlier-loop')
+        elif k == 'reawait':
+            # the caller's own long-lived awaitable object: the SAME object is waited on in every round
+            if i not in quotes:
+                async def fetch_(i=i):
+                    started[(i, gen['n'])] += 1
+                    await asyncio.sleep(delay_of(i))
+                    return finish(i)
+                quotes[i] = _Quote(fetch_)
+            else:
+                res.probe('same-awaitable-object-waited-on-again')
+            o = quotes[i]
         elif k == 'custom':
             o = _Custom(driver_future(i, delay_of(i)))
         elif k == 'twostage':
@@ -608,6 +641,7 @@ def execute(trace, ctx=None):
         return o
 
     recording = {'on': True}
+    quotes = {}             # leaf -> the caller's re-awaitable object (survives the rounds)
 
     def refill(node):
         """second round: fresh awaitables put into the container objects of the first round (tuples are rebuilt)"""
@@ -737,6 +771,22 @@ def execute(trace, ctx=None):
             box['r1_ok'] = _same(r1, box['exp1'])
             box['r1_repr'] = repr(r1)[:300]
             _edit_empties(r1)        # the result belongs to the caller
+            if box['r1_ok'] and structure['t'] not in ('leaf', 'plain', 'same') and isinstance(r1, (list, dict)) and not isinstance(r1, _ctor('dictable')) and type(r1).__name__ not in ('_Rec',) and not type(r1).__name__.startswith('Rec'):
+                # ... which may put new awaitables into it and wait on it: they are served like any others
+                async def late_(v_):
+                    await asyncio.sleep(0)
+                    return v_
+                if isinstance(r1, list):
+                    r1.append(late_('N1'))
+                    r1b = await wcall(r1)
+                    okb = isinstance(r1b, list) and len(r1b) == len(r1) and _same(r1b[-1], 'N1')
+                else:
+                    r1['zz_new'] = late_('N1')
+                    r1b = await wcall(r1)
+                    okb = isinstance(r1b, dict) and 'zz_new' in r1b and _same(r1b['zz_new'], 'N1')
+                if not okb:
+                    box['extend_bad'] = repr(r1b)[:300]
+                res.probe('result-extended-with-awaitables-and-waited-on-again')
             gen['n'] = 2
             objs.clear(); done_events.clear()
             recording['on'] = False
@@ -834,6 +884,8 @@ def execute(trace, ctx=None):
 
     # ---- oracles ----
     try:
+        if box.get('extend_bad'):
+            raise Violation('wrong-result', 'the first result, extended by the caller with a new awaitable and handed to waiter again, came back as %s' % box['extend_bad'])
         if box.get('nested_bad'):
             raise Violation('wrong-result', 'a coroutine inside the structure that waits twice on a dict of its own (one member replaced in between) got %r then %r'
                             % box['nested_bad'])
